@@ -38,6 +38,12 @@ fn probe(args: &[String]) {
 /// Run `vcheck <args>` as a child process. Some(code) = it exited by itself; None = it was killed by a signal
 /// (stack overflow -> SIGABRT/SIGSEGV, OOM kill ...) or did not finish within the limit.
 fn run_child(args: &[String], journal: Option<&str>, limit_s: Option<u64>) -> Option<i32> {
+    run_child_watched(args, journal, limit_s, None)
+}
+
+/// `stall_s`: kill the child when one of its journal files has held the same case for that long (a worker thread is
+/// stuck inside one case - an evaluation that does not terminate and is not under the in-process watchdog)
+fn run_child_watched(args: &[String], journal: Option<&str>, limit_s: Option<u64>, stall_s: Option<u64>) -> Option<i32> {
     let exe = std::env::current_exe().expect("current_exe");
     let mut cmd = std::process::Command::new(exe);
     cmd.args(args).env("VERIF_CHILD", "1");
@@ -62,6 +68,14 @@ fn run_child(args: &[String], journal: Option<&str>, limit_s: Option<u64>) -> Op
                         return None;
                     }
                 }
+                if let (Some(st), Some(dir)) = (stall_s, journal) {
+                    if t0.elapsed().as_secs() % 5 == 0 && engine::stalled_journals(dir, st) > 0 {
+                        eprintln!("a worker thread of the check has been inside one case for more than {} s: stopping the check process", st);
+                        let _ = child.kill();
+                        let _ = child.wait();
+                        return None;
+                    }
+                }
                 std::thread::sleep(std::time::Duration::from_millis(if limit_s.is_some() { 50 } else { 200 }));
             }
             Err(_) => return Some(3),
@@ -78,12 +92,13 @@ fn supervise(id: &'static str, tier: engine::Tier, args: &[String]) -> ! {
     let dir = format!("{}/vcheck-journal-{}", base, std::process::id());
     let _ = std::fs::remove_dir_all(&dir);
     let _ = std::fs::create_dir_all(&dir);
-    let code = run_child(args, Some(&dir), None);
+    let stall: u64 = std::env::var("VERIF_STALL_S").ok().and_then(|s| s.parse().ok()).unwrap_or(180);
+    let code = run_child_watched(args, Some(&dir), None, Some(stall));
     if let Some(c) = code {
         let _ = std::fs::remove_dir_all(&dir);
         std::process::exit(c);
     }
-    eprintln!("[{}] the check process was killed by a signal; replaying the cases its threads were working on, each in a fresh process", id);
+    eprintln!("[{}] the check process died or was stopped because a case did not finish; replaying the cases its threads were working on, each in a fresh process (90 s limit)", id);
     let cases = engine::read_journal(&dir);
     let rdir = format!("{}/replays", engine::verif_dir());
     let _ = std::fs::create_dir_all(&rdir);
@@ -92,9 +107,9 @@ fn supervise(id: &'static str, tier: engine::Tier, args: &[String]) -> ! {
     for (k, c) in cases.iter().enumerate() {
         let path = format!("{}/{}-crash-{}-{}.json", rdir, id, seed, k);
         let mut body = c.clone();
-        body["message"] = serde_json::Value::String("the process evaluating this case was killed by a signal (stack overflow / abort inside the library)".into());
+        body["message"] = serde_json::Value::String("the process evaluating this case was killed by a signal (stack overflow / abort inside the library) or did not finish within 90 s (evaluation does not terminate)".into());
         let _ = std::fs::write(&path, serde_json::to_string_pretty(&body).unwrap());
-        match run_child(&["--replay".to_string(), path.clone()], None, Some(180)) {
+        match run_child(&["--replay".to_string(), path.clone()], None, Some(90)) {
             Some(0) => {
                 let _ = std::fs::remove_file(&path);
             }
